@@ -1,26 +1,1340 @@
-//! C13: not implemented yet.
+//! C13: configurables patched at the offsets the JSON ABI reports are observed by the program.
+//!
+//! Monitor: generated scripts with 1..10 configurables of fixed-length ABI types; `main` returns
+//! a tuple of observations of them (the value itself, the value through a helper function, a
+//! comparison with the compiled-in default, a projection, an enum tag) and logs some. The
+//! program is compiled with the real forc-pkg flow (which fixes up the ABI offsets and the
+//! prelude word), in debug and in release. Like an SDK the monitor takes offsets and types ONLY
+//! from the emitted ABI (`configurables[i].offset`, `concreteTypeId` resolved through
+//! `concreteTypes`/`metadataTypes`), writes its own canonical encoding (encoding v1) of a
+//! replacement value at the offset and runs the patched bytecode in the FuelVM.
+//! Oracle: every patched configurable is observed with its new value in all components that
+//! depend on it, every other component keeps its compiled-in value. Structural checks: bytes at
+//! the offset are the encoded default, the prelude word (bytes 16..24) is the smallest offset,
+//! regions are inside the bytecode and disjoint, every used configurable is listed with the
+//! declared type.
 use crate::common::*;
+use crate::engine::*;
+use crate::swrun::{bucket, first_error_text};
 use crate::{Plan, Prop};
+use fuel_abi_types::abi::program as fabi;
+use rand::{rngs::StdRng, Rng};
+use serde_json::{json, Value};
+use std::collections::{BTreeMap, BTreeSet};
+use std::panic::AssertUnwindSafe;
 
 pub static META: PropertyMeta = PropertyMeta {
     id: "C13",
     level: "exploration",
-    rule: "not implemented",
-    assumptions: &[],
-    floor_evaluations: 1,
-    floor_nontrivial: 2,
-    required_counters: &[],
+    rule: "generated scripts with 1..10 configurables (bool, u8..u256, b256, str[N], arrays, tuples, structs, enums, nested <= 3; names chosen so that name order differs from declaration order; usage classes main / helper / several functions / unused / uncalled function / `if false`) x {debug, release} x patch patterns {none, each listed configurable alone, adjacent pairs in offset order, all}; an evaluation = one program; non-trivial = compiled in both profiles, >= 2 configurables listed in the ABI and at least one single-configurable patch changed an observed component; distinct = hash of the source text",
+    assumptions: &[
+        "fuel-vm 0.66 is the trusted execution substrate",
+        "encoding v1 (the default of this tree): a configurable's slot holds the ABI encoding of its value, padded to the largest encoding of its type; an SDK writes the encoding of the new value at the reported offset",
+        "offsets, types and sizes are taken only from the ABI object forc-pkg emits (the content of the JSON ABI file)",
+        "programs are built by the amortised engine (one compiler instance for many packages); a failed check is re-checked on a plain forc build of the same package (fresh compiler instance, what forc does) and reported only if it fails there too",
+        "in this tree every declared configurable is decoded at start-up and therefore listed, read or not: an unread configurable is patched as well and must change nothing",
+    ],
+    floor_evaluations: 30,
+    floor_nontrivial: 10,
+    required_counters: &[
+        "programs_checked.debug",
+        "programs_checked.release",
+        "patch_runs.none",
+        "patch_runs.single",
+        "patch_runs.pair",
+        "patch_runs.all",
+        "components_compared",
+        "components_changed_by_patch",
+        "structural.default_bytes",
+        "structural.prelude_word",
+        "structural.in_bounds",
+        "structural.disjoint",
+        "structural.used_is_listed",
+        "structural.abi_type_matches",
+        "unread_configurable_patched",
+        "cfg_ctor.struct",
+        "cfg_ctor.enum",
+        "cfg_ctor.array",
+        "cfg_ctor.tuple",
+        "cfg_ctor.str",
+        "cfg_ctor.u256",
+        "cfg_ctor.b256",
+        "cfg_ctor.u8",
+        "cfg_ctor.bool",
+    ],
 };
 
 pub static PROP: Prop = Prop {
     meta: &META,
-    plan: |_t| Plan { nshards: 1, budget_s: 1.0, mem_gib: 0 },
-    shard: |_ctx| {
-        let mut r = ShardResult::default();
-        r.harness_fault = Some("not implemented".into());
-        r
-    },
-    replay: crate::no_replay,
+    plan: |t| Plan { nshards: 16, budget_s: t.pick(50.0, 1000.0), mem_gib: 6 },
+    shard,
+    replay,
     extra: crate::no_extra,
-    subcommand: crate::no_subcommand,
+    subcommand,
 };
+
+// ------------------------------------------------------------------------------------------
+// Types, values, codec (own implementation of encoding v1)
+
+#[derive(Clone, Debug, PartialEq, Eq)]
+pub enum T {
+    Unit,
+    Bool,
+    /// 8, 16, 32, 64, 256
+    UInt(u32),
+    B256,
+    Str(usize),
+    Array(Box<T>, usize),
+    Tuple(Vec<T>),
+    Struct(String, Vec<(String, T)>),
+    /// a unit variant has payload `T::Unit`
+    Enum(String, Vec<(String, T)>),
+}
+
+#[derive(Clone, Debug, PartialEq, Eq)]
+pub enum V {
+    Unit,
+    Bool(bool),
+    /// big endian, exactly the width of the type
+    Int(Vec<u8>),
+    Str(Vec<u8>),
+    /// array elements, tuple elements, struct fields
+    Seq(Vec<V>),
+    Enum(usize, Box<V>),
+}
+
+impl T {
+    pub fn name(&self) -> String {
+        match self {
+            T::Unit => "()".into(),
+            T::Bool => "bool".into(),
+            T::UInt(b) => format!("u{b}"),
+            T::B256 => "b256".into(),
+            T::Str(n) => format!("str[{n}]"),
+            T::Array(t, n) => format!("[{}; {n}]", t.name()),
+            T::Tuple(ts) => format!("({})", ts.iter().map(|t| t.name()).collect::<Vec<_>>().join(", ")),
+            T::Struct(n, _) | T::Enum(n, _) => n.clone(),
+        }
+    }
+    pub fn ctor(&self) -> &'static str {
+        match self {
+            T::Unit => "unit",
+            T::Bool => "bool",
+            T::UInt(8) => "u8",
+            T::UInt(16) => "u16",
+            T::UInt(32) => "u32",
+            T::UInt(64) => "u64",
+            T::UInt(_) => "u256",
+            T::B256 => "b256",
+            T::Str(_) => "str",
+            T::Array(..) => "array",
+            T::Tuple(_) => "tuple",
+            T::Struct(..) => "struct",
+            T::Enum(..) => "enum",
+        }
+    }
+    /// size of the largest encoding of a value of this type (= size of the configurable's slot)
+    pub fn max_size(&self) -> usize {
+        match self {
+            T::Unit => 0,
+            T::Bool => 1,
+            T::UInt(b) => (*b / 8) as usize,
+            T::B256 => 32,
+            T::Str(n) => *n,
+            T::Array(t, n) => t.max_size() * n,
+            T::Tuple(ts) => ts.iter().map(|t| t.max_size()).sum(),
+            T::Struct(_, fs) => fs.iter().map(|(_, t)| t.max_size()).sum(),
+            T::Enum(_, vs) => 8 + vs.iter().map(|(_, t)| t.max_size()).max().unwrap_or(0),
+        }
+    }
+    fn nested_ctors(&self, out: &mut Vec<&'static str>) {
+        out.push(self.ctor());
+        match self {
+            T::Array(t, _) => t.nested_ctors(out),
+            T::Tuple(ts) => ts.iter().for_each(|t| t.nested_ctors(out)),
+            T::Struct(_, fs) | T::Enum(_, fs) => fs.iter().for_each(|(_, t)| t.nested_ctors(out)),
+            _ => {}
+        }
+    }
+    fn depth(&self) -> usize {
+        match self {
+            T::Array(t, _) => 1 + t.depth(),
+            T::Tuple(ts) => 1 + ts.iter().map(|t| t.depth()).max().unwrap_or(0),
+            T::Struct(_, fs) | T::Enum(_, fs) => 1 + fs.iter().map(|(_, t)| t.depth()).max().unwrap_or(0),
+            _ => 0,
+        }
+    }
+}
+
+pub fn encode(t: &T, v: &V, out: &mut Vec<u8>) {
+    match (t, v) {
+        (T::Unit, V::Unit) => {}
+        (T::Bool, V::Bool(b)) => out.push(*b as u8),
+        (T::UInt(bits), V::Int(b)) => {
+            assert_eq!(b.len(), (*bits / 8) as usize);
+            out.extend(b);
+        }
+        (T::B256, V::Int(b)) => {
+            assert_eq!(b.len(), 32);
+            out.extend(b);
+        }
+        (T::Str(n), V::Str(s)) => {
+            assert_eq!(s.len(), *n);
+            out.extend(s);
+        }
+        (T::Array(et, n), V::Seq(vs)) => {
+            assert_eq!(vs.len(), *n);
+            for v in vs {
+                encode(et, v, out);
+            }
+        }
+        (T::Tuple(ts), V::Seq(vs)) => {
+            assert_eq!(vs.len(), ts.len());
+            for (t, v) in ts.iter().zip(vs) {
+                encode(t, v, out);
+            }
+        }
+        (T::Struct(_, fs), V::Seq(vs)) => {
+            assert_eq!(vs.len(), fs.len());
+            for ((_, t), v) in fs.iter().zip(vs) {
+                encode(t, v, out);
+            }
+        }
+        (T::Enum(_, vars), V::Enum(k, p)) => {
+            out.extend((*k as u64).to_be_bytes());
+            encode(&vars[*k].1, p, out);
+        }
+        _ => panic!("c13: encode type/value mismatch {t:?} {v:?}"),
+    }
+}
+
+pub fn enc(t: &T, v: &V) -> Vec<u8> {
+    let mut o = vec![];
+    encode(t, v, &mut o);
+    o
+}
+
+/// Type-directed decoder of encoding v1; None = the bytes are not an encoding of a value of `t`.
+pub fn decode(t: &T, d: &[u8], pos: &mut usize) -> Option<V> {
+    fn take<'a>(d: &'a [u8], pos: &mut usize, n: usize) -> Option<&'a [u8]> {
+        let s = d.get(*pos..pos.checked_add(n)?)?;
+        *pos += n;
+        Some(s)
+    }
+    Some(match t {
+        T::Unit => V::Unit,
+        T::Bool => match take(d, pos, 1)?[0] {
+            0 => V::Bool(false),
+            1 => V::Bool(true),
+            _ => return None,
+        },
+        T::UInt(b) => V::Int(take(d, pos, (*b / 8) as usize)?.to_vec()),
+        T::B256 => V::Int(take(d, pos, 32)?.to_vec()),
+        T::Str(n) => V::Str(take(d, pos, *n)?.to_vec()),
+        T::Array(et, n) => {
+            let mut vs = vec![];
+            for _ in 0..*n {
+                vs.push(decode(et, d, pos)?);
+            }
+            V::Seq(vs)
+        }
+        T::Tuple(ts) => V::Seq(ts.iter().map(|t| decode(t, d, pos)).collect::<Option<Vec<_>>>()?),
+        T::Struct(_, fs) => V::Seq(fs.iter().map(|(_, t)| decode(t, d, pos)).collect::<Option<Vec<_>>>()?),
+        T::Enum(_, vars) => {
+            let k = u64::from_be_bytes(take(d, pos, 8)?.try_into().ok()?);
+            let (_, pt) = vars.get(usize::try_from(k).ok()?)?;
+            V::Enum(k as usize, Box::new(decode(pt, d, pos)?))
+        }
+    })
+}
+
+/// Sway literal / constant expression of a value.
+pub fn lit(t: &T, v: &V) -> String {
+    match (t, v) {
+        (T::Unit, _) => "()".into(),
+        (T::Bool, V::Bool(b)) => b.to_string(),
+        (T::UInt(256), V::Int(b)) => format!("0x{}u256", hex::encode(b)),
+        (T::UInt(bits), V::Int(b)) => {
+            let mut x = 0u64;
+            for y in b {
+                x = (x << 8) | *y as u64;
+            }
+            format!("{x}u{bits}")
+        }
+        (T::B256, V::Int(b)) => format!("0x{}", hex::encode(b)),
+        (T::Str(_), V::Str(s)) => format!("__to_str_array(\"{}\")", String::from_utf8_lossy(s)),
+        (T::Array(et, _), V::Seq(vs)) => format!("[{}]", vs.iter().map(|v| lit(et, v)).collect::<Vec<_>>().join(", ")),
+        (T::Tuple(ts), V::Seq(vs)) => format!("({})", ts.iter().zip(vs).map(|(t, v)| lit(t, v)).collect::<Vec<_>>().join(", ")),
+        (T::Struct(n, fs), V::Seq(vs)) => format!("{n} {{ {} }}", fs.iter().zip(vs).map(|((f, t), v)| format!("{f}: {}", lit(t, v))).collect::<Vec<_>>().join(", ")),
+        (T::Enum(n, vars), V::Enum(k, p)) => {
+            let (vn, pt) = &vars[*k];
+            if *pt == T::Unit {
+                format!("{n}::{vn}")
+            } else {
+                format!("{n}::{vn}({})", lit(pt, p))
+            }
+        }
+        _ => panic!("c13: lit type/value mismatch"),
+    }
+}
+
+fn short_val(t: &T, v: &V) -> String {
+    let s = lit(t, v);
+    if s.len() > 90 {
+        format!("{}…", s.chars().take(90).collect::<String>())
+    } else {
+        s
+    }
+}
+
+// ------------------------------------------------------------------------------------------
+// Generator
+
+#[derive(Clone, Copy, Debug, PartialEq, Eq)]
+pub enum Usage {
+    /// read in `main`
+    Main,
+    /// read only in a helper function that `main` calls
+    Helper,
+    /// read in `main` and in helper functions
+    Multi,
+    /// never mentioned
+    Unused,
+    /// mentioned only in a function nobody calls
+    DeadFn,
+    /// mentioned only under `if false`
+    DeadBranch,
+}
+
+impl Usage {
+    fn observed(self) -> bool {
+        matches!(self, Usage::Main | Usage::Helper | Usage::Multi)
+    }
+    fn name(self) -> &'static str {
+        match self {
+            Usage::Main => "main",
+            Usage::Helper => "helper",
+            Usage::Multi => "several_functions",
+            Usage::Unused => "unused",
+            Usage::DeadFn => "uncalled_function",
+            Usage::DeadBranch => "if_false",
+        }
+    }
+}
+
+#[derive(Clone, Debug)]
+pub struct Cfg {
+    pub name: String,
+    pub ty: T,
+    pub default: V,
+    /// replacement value used by the patch runs
+    pub new: V,
+    pub usage: Usage,
+    /// default written as `[v; N]`
+    pub repeat_default: bool,
+}
+
+#[derive(Clone, Debug)]
+pub enum Comp {
+    Direct(usize),
+    Helper(usize),
+    /// `K == <default literal>`
+    EqDefault(usize),
+    /// struct field / tuple element / array element with a constant index
+    Proj(usize, usize),
+    /// index of the enum variant, by `match`
+    Tag(usize),
+}
+
+impl Comp {
+    fn cfg(&self) -> usize {
+        match self {
+            Comp::Direct(k) | Comp::Helper(k) | Comp::EqDefault(k) | Comp::Proj(k, _) | Comp::Tag(k) => *k,
+        }
+    }
+    fn kind(&self) -> &'static str {
+        match self {
+            Comp::Direct(_) => "direct",
+            Comp::Helper(_) => "via_helper",
+            Comp::EqDefault(_) => "eq_default",
+            Comp::Proj(..) => "projection",
+            Comp::Tag(_) => "enum_tag",
+        }
+    }
+}
+
+#[derive(Clone, Debug)]
+pub struct Case {
+    pub decls: Vec<T>,
+    pub cfgs: Vec<Cfg>,
+    pub comps: Vec<Comp>,
+    /// configurables logged in main (in this order), before the return
+    pub logged: Vec<usize>,
+    pub src: String,
+}
+
+struct Gen<'a> {
+    rng: &'a mut StdRng,
+    decls: Vec<T>,
+}
+
+const STR_CHARS: &[u8] = b"abcdefghijklmnopqrstuvwxyzABCDEFGHIJKLMNOPQRSTUVWXYZ0123456789 _-+";
+
+impl Gen<'_> {
+    fn leaf(&mut self) -> T {
+        match self.rng.gen_range(0..12) {
+            0 | 1 => T::Bool,
+            2 | 3 => T::UInt(8),
+            4 => T::UInt(16),
+            5 => T::UInt(32),
+            6 | 7 => T::UInt(64),
+            8 => T::UInt(256),
+            9 => T::B256,
+            _ => {
+                let n = if self.rng.gen_bool(0.1) { self.rng.gen_range(13..40) } else { self.rng.gen_range(1..13) };
+                T::Str(n)
+            }
+        }
+    }
+    fn ty(&mut self, depth: usize) -> T {
+        if depth == 0 || self.rng.gen_bool(0.45) {
+            return self.leaf();
+        }
+        match self.rng.gen_range(0..4) {
+            0 => {
+                let n = self.rng.gen_range(1..=5);
+                T::Array(Box::new(self.ty(depth - 1)), n)
+            }
+            1 => {
+                let n = self.rng.gen_range(2..=4);
+                T::Tuple((0..n).map(|_| self.ty(depth - 1)).collect())
+            }
+            2 => self.nominal(depth, true),
+            _ => self.nominal(depth, false),
+        }
+    }
+    /// a struct or an enum: an existing declaration of a fitting depth or a new one
+    fn nominal(&mut self, depth: usize, is_struct: bool) -> T {
+        let existing: Vec<T> = self.decls.iter().filter(|d| matches!(d, T::Struct(..)) == is_struct && d.depth() <= depth).cloned().collect();
+        if !existing.is_empty() && self.rng.gen_bool(0.4) {
+            return existing[self.rng.gen_range(0..existing.len())].clone();
+        }
+        let n = self.rng.gen_range(1..=4);
+        let idx = self.decls.len();
+        // reserve the name first (inner declarations get later indices but are printed first)
+        let t = if is_struct {
+            let fields = (0..n).map(|i| (format!("f{i}"), self.ty(depth - 1))).collect();
+            T::Struct(format!("S{idx}x{}", self.rng.gen_range(0..1000)), fields)
+        } else {
+            let vars = (0..n).map(|i| (format!("V{i}"), if self.rng.gen_bool(0.35) { T::Unit } else { self.ty(depth - 1) })).collect();
+            T::Enum(format!("E{idx}x{}", self.rng.gen_range(0..1000)), vars)
+        };
+        self.decls.push(t.clone());
+        t
+    }
+    fn val(&mut self, t: &T, flavour: u8) -> V {
+        match t {
+            T::Unit => V::Unit,
+            T::Bool => V::Bool(match flavour {
+                1 => false,
+                2 => true,
+                _ => self.rng.gen(),
+            }),
+            T::UInt(_) | T::B256 => {
+                let n = t.max_size();
+                V::Int(match flavour {
+                    1 => vec![0; n],
+                    2 => vec![0xff; n],
+                    3 => {
+                        // small value
+                        let mut b = vec![0; n];
+                        b[n - 1] = self.rng.gen_range(0..4);
+                        b
+                    }
+                    _ => (0..n).map(|_| self.rng.gen::<u8>()).collect(),
+                })
+            }
+            T::Str(n) => V::Str(match flavour {
+                1 => vec![b' '; *n],
+                2 => vec![b'z'; *n],
+                _ => (0..*n).map(|_| STR_CHARS[self.rng.gen_range(0..STR_CHARS.len())]).collect(),
+            }),
+            T::Array(et, n) => V::Seq((0..*n).map(|_| self.val(et, flavour)).collect()),
+            T::Tuple(ts) => V::Seq(ts.iter().map(|t| self.val(t, flavour)).collect()),
+            T::Struct(_, fs) => V::Seq(fs.iter().map(|(_, t)| self.val(t, flavour)).collect()),
+            T::Enum(_, vars) => {
+                let k = match flavour {
+                    1 => 0,
+                    2 => vars.len() - 1,
+                    _ => self.rng.gen_range(0..vars.len()),
+                };
+                V::Enum(k, Box::new(self.val(&vars[k].1, flavour)))
+            }
+        }
+    }
+    fn flavour(&mut self) -> u8 {
+        match self.rng.gen_range(0..10) {
+            0 => 1,
+            1 | 2 => 2,
+            3 => 3,
+            _ => 0,
+        }
+    }
+}
+
+const PREFIXES: &[&str] = &["K", "ZED", "ALPHA", "MID", "Q", "BETA", "OMEGA", "A", "Z_Z", "CONF", "B2", "YY"];
+
+pub fn gen_case(rng: &mut StdRng) -> Case {
+    let mut g = Gen { rng, decls: vec![] };
+    let n = if g.rng.gen_bool(0.15) { 1 } else { g.rng.gen_range(2..=10) };
+    let mut cfgs: Vec<Cfg> = vec![];
+    for i in 0..n {
+        let depth = g.rng.gen_range(0..=3);
+        let mut repeat_default = false;
+        let ty = if g.rng.gen_bool(0.04) && !cfgs.iter().any(|c: &Cfg| c.repeat_default) {
+            // a big slot: pushes the later offsets far away and exercises long copies
+            repeat_default = true;
+            let et = match g.rng.gen_range(0..3) {
+                0 => T::UInt(64),
+                1 => T::UInt(8),
+                _ => T::B256,
+            };
+            let max = 1800 / et.max_size();
+            T::Array(Box::new(et), g.rng.gen_range(20..=max.min(400)))
+        } else if i > 0 && g.rng.gen_bool(0.12) {
+            // the same type as an earlier configurable (shared decode function)
+            cfgs[g.rng.gen_range(0..i)].ty.clone()
+        } else {
+            g.ty(depth)
+        };
+        let f = g.flavour();
+        let default = if repeat_default {
+            let T::Array(et, n) = &ty else { unreachable!() };
+            let e = g.val(et, f);
+            V::Seq(vec![e; *n])
+        } else {
+            g.val(&ty, f)
+        };
+        let mut new = default.clone();
+        for _ in 0..6 {
+            let f = g.flavour();
+            new = g.val(&ty, f);
+            if new != default {
+                break;
+            }
+        }
+        let usage = match g.rng.gen_range(0..20) {
+            0..=8 => Usage::Main,
+            9..=11 => Usage::Helper,
+            12..=14 => Usage::Multi,
+            15 | 16 => Usage::Unused,
+            17 | 18 => Usage::DeadFn,
+            _ => Usage::DeadBranch,
+        };
+        let name = format!("{}_{i}", PREFIXES[g.rng.gen_range(0..PREFIXES.len())]);
+        cfgs.push(Cfg { name, ty, default, new, usage, repeat_default });
+    }
+    if !cfgs.iter().any(|c| c.usage.observed()) {
+        let k = g.rng.gen_range(0..cfgs.len());
+        cfgs[k].usage = Usage::Main;
+    }
+    // observation components
+    let mut comps = vec![];
+    for (k, c) in cfgs.iter().enumerate() {
+        match c.usage {
+            Usage::Main => comps.push(Comp::Direct(k)),
+            Usage::Helper => comps.push(Comp::Helper(k)),
+            Usage::Multi => {
+                comps.push(Comp::Direct(k));
+                comps.push(Comp::Helper(k));
+            }
+            _ => continue,
+        }
+        let direct_ok = c.usage != Usage::Helper;
+        if direct_ok && comps.len() < 14 && g.rng.gen_bool(0.35) {
+            match &c.ty {
+                T::Bool | T::UInt(_) | T::B256 => comps.push(Comp::EqDefault(k)),
+                T::Struct(_, fs) => comps.push(Comp::Proj(k, g.rng.gen_range(0..fs.len()))),
+                T::Tuple(ts) => comps.push(Comp::Proj(k, g.rng.gen_range(0..ts.len()))),
+                T::Array(_, n) => comps.push(Comp::Proj(k, g.rng.gen_range(0..*n))),
+                T::Enum(..) => comps.push(Comp::Tag(k)),
+                _ => {}
+            }
+        }
+    }
+    // shuffle the components so that return order differs from declaration order
+    for i in (1..comps.len()).rev() {
+        let j = g.rng.gen_range(0..=i);
+        comps.swap(i, j);
+    }
+    let mut logged = vec![];
+    for (k, c) in cfgs.iter().enumerate() {
+        if matches!(c.usage, Usage::Main | Usage::Multi) && logged.len() < 3 && c.ty.max_size() < 600 && g.rng.gen_bool(0.3) {
+            logged.push(k);
+        }
+    }
+    let decls = g.decls.clone();
+    let mut case = Case { decls, cfgs, comps, logged, src: String::new() };
+    case.src = print_case(&case);
+    case
+}
+
+fn comp_type(case: &Case, c: &Comp) -> T {
+    let t = &case.cfgs[c.cfg()].ty;
+    match c {
+        Comp::Direct(_) | Comp::Helper(_) => t.clone(),
+        Comp::EqDefault(_) => T::Bool,
+        Comp::Tag(_) => T::UInt(64),
+        Comp::Proj(_, i) => match t {
+            T::Struct(_, fs) => fs[*i].1.clone(),
+            T::Tuple(ts) => ts[*i].clone(),
+            T::Array(et, _) => (**et).clone(),
+            _ => unreachable!(),
+        },
+    }
+}
+
+/// Value of a component when configurable k holds `vals[k]`.
+fn comp_val(case: &Case, c: &Comp, vals: &[&V]) -> V {
+    let k = c.cfg();
+    let v = vals[k];
+    match c {
+        Comp::Direct(_) | Comp::Helper(_) => v.clone(),
+        Comp::EqDefault(_) => V::Bool(*v == case.cfgs[k].default),
+        Comp::Tag(_) => match v {
+            V::Enum(i, _) => V::Int((*i as u64).to_be_bytes().to_vec()),
+            _ => unreachable!(),
+        },
+        Comp::Proj(_, i) => match v {
+            V::Seq(vs) => vs[*i].clone(),
+            _ => unreachable!(),
+        },
+    }
+}
+
+fn comp_expr(case: &Case, c: &Comp) -> String {
+    let cfg = &case.cfgs[c.cfg()];
+    let n = &cfg.name;
+    match c {
+        Comp::Direct(_) => n.clone(),
+        Comp::Helper(_) => format!("get_{}()", n.to_lowercase()),
+        Comp::EqDefault(_) => format!("({n} == {})", lit(&cfg.ty, &cfg.default)),
+        Comp::Proj(_, i) => match &cfg.ty {
+            T::Struct(_, fs) => format!("{n}.{}", fs[*i].0),
+            T::Tuple(_) => format!("{n}.{i}"),
+            T::Array(..) => format!("{n}[{i}]"),
+            _ => unreachable!(),
+        },
+        Comp::Tag(_) => {
+            let T::Enum(en, vars) = &cfg.ty else { unreachable!() };
+            let arms: Vec<String> = vars.iter().enumerate().map(|(i, (vn, pt))| if *pt == T::Unit { format!("{en}::{vn} => {i}u64") } else { format!("{en}::{vn}(_) => {i}u64") }).collect();
+            format!("match {n} {{ {}, }}", arms.join(", "))
+        }
+    }
+}
+
+pub fn print_case(case: &Case) -> String {
+    let mut s = String::from("script;\n\n");
+    // inner declarations were pushed after the outer ones reserved their index: order is irrelevant in Sway
+    for d in &case.decls {
+        match d {
+            T::Struct(n, fs) => {
+                s.push_str(&format!("struct {n} {{\n"));
+                for (f, t) in fs {
+                    s.push_str(&format!("    {f}: {},\n", t.name()));
+                }
+                s.push_str("}\n\n");
+            }
+            T::Enum(n, vars) => {
+                s.push_str(&format!("enum {n} {{\n"));
+                for (v, t) in vars {
+                    s.push_str(&format!("    {v}: {},\n", t.name()));
+                }
+                s.push_str("}\n\n");
+            }
+            _ => {}
+        }
+    }
+    s.push_str("configurable {\n");
+    for c in &case.cfgs {
+        let init = if c.repeat_default {
+            let (T::Array(et, n), V::Seq(vs)) = (&c.ty, &c.default) else { unreachable!() };
+            format!("[{}; {n}]", lit(et, &vs[0]))
+        } else {
+            lit(&c.ty, &c.default)
+        };
+        s.push_str(&format!("    {}: {} = {},\n", c.name, c.ty.name(), init));
+    }
+    s.push_str("}\n\n");
+    for c in &case.cfgs {
+        match c.usage {
+            Usage::Helper | Usage::Multi => s.push_str(&format!("fn get_{}() -> {} {{\n    {}\n}}\n\n", c.name.to_lowercase(), c.ty.name(), c.name)),
+            Usage::DeadFn => s.push_str(&format!("#[allow(dead_code)]\nfn nobody_calls_{}() -> {} {{\n    {}\n}}\n\n", c.name.to_lowercase(), c.ty.name(), c.name)),
+            _ => {}
+        }
+    }
+    let tys: Vec<String> = case.comps.iter().map(|c| comp_type(case, c).name()).collect();
+    let ret = if tys.len() == 1 { tys[0].clone() } else { format!("({})", tys.join(", ")) };
+    s.push_str(&format!("fn main() -> {ret} {{\n"));
+    for c in &case.cfgs {
+        if c.usage == Usage::DeadBranch {
+            s.push_str(&format!("    if false {{\n        log({});\n    }}\n", c.name));
+        }
+    }
+    for k in &case.logged {
+        s.push_str(&format!("    log({});\n", case.cfgs[*k].name));
+    }
+    for (i, c) in case.comps.iter().enumerate() {
+        s.push_str(&format!("    let c{i}: {} = {};\n", tys[i], comp_expr(case, c)));
+    }
+    let names: Vec<String> = (0..case.comps.len()).map(|i| format!("c{i}")).collect();
+    if names.len() == 1 {
+        s.push_str("    c0\n");
+    } else {
+        s.push_str(&format!("    ({})\n", names.join(", ")));
+    }
+    s.push_str("}\n");
+    s
+}
+
+// ------------------------------------------------------------------------------------------
+// ABI reader (what an SDK does with the JSON)
+
+fn last_segment(s: &str) -> String {
+    s.rsplit("::").next().unwrap_or(s).trim().to_string()
+}
+
+fn prim(tf: &str) -> Result<T, String> {
+    Ok(match tf {
+        "()" => T::Unit,
+        "bool" => T::Bool,
+        "u8" => T::UInt(8),
+        "u16" => T::UInt(16),
+        "u32" => T::UInt(32),
+        "u64" => T::UInt(64),
+        "u256" => T::UInt(256),
+        "b256" => T::B256,
+        _ => {
+            if let Some(n) = tf.strip_prefix("str[").and_then(|r| r.strip_suffix(']')).and_then(|n| n.parse::<usize>().ok()) {
+                T::Str(n)
+            } else {
+                return Err(format!("type `{tf}` without metadata is not a known primitive"));
+            }
+        }
+    })
+}
+
+pub fn resolve_concrete(abi: &fabi::ProgramABI, id: &str, fuel: usize) -> Result<T, String> {
+    if fuel == 0 {
+        return Err("type nesting too deep".into());
+    }
+    let c = abi.concrete_types.iter().find(|c| c.concrete_type_id.0 == id).ok_or_else(|| format!("concreteTypeId {id} is not declared in concreteTypes"))?;
+    if let Some(a) = &c.alias_of {
+        return resolve_concrete(abi, &a.0, fuel - 1);
+    }
+    if c.type_arguments.as_ref().map(|a| !a.is_empty()).unwrap_or(false) {
+        return Err("generic type (not generated by this monitor)".into());
+    }
+    match &c.metadata_type_id {
+        None => prim(&c.type_field),
+        Some(m) => resolve_meta(abi, m.0, fuel - 1),
+    }
+}
+
+fn resolve_meta(abi: &fabi::ProgramABI, mid: usize, fuel: usize) -> Result<T, String> {
+    if fuel == 0 {
+        return Err("type nesting too deep".into());
+    }
+    let m = abi.metadata_types.iter().find(|m| m.metadata_type_id.0 == mid).ok_or_else(|| format!("metadataTypeId {mid} is not declared"))?;
+    if m.type_parameters.as_ref().map(|a| !a.is_empty()).unwrap_or(false) {
+        return Err("generic type (not generated by this monitor)".into());
+    }
+    let mut comps = vec![];
+    for a in m.components.clone().unwrap_or_default() {
+        if a.type_arguments.as_ref().map(|x| !x.is_empty()).unwrap_or(false) {
+            return Err("generic type (not generated by this monitor)".into());
+        }
+        let t = match &a.type_id {
+            fabi::TypeId::Concrete(c) => resolve_concrete(abi, &c.0, fuel - 1)?,
+            fabi::TypeId::Metadata(m) => resolve_meta(abi, m.0, fuel - 1)?,
+        };
+        comps.push((a.name.clone(), t));
+    }
+    let tf = m.type_field.trim();
+    if comps.is_empty() {
+        // primitives that only occur nested are declared as metadata types without components
+        if let Ok(t) = prim(tf) {
+            return Ok(t);
+        }
+    }
+    if let Some(n) = tf.strip_prefix("struct ") {
+        Ok(T::Struct(last_segment(n), comps))
+    } else if let Some(n) = tf.strip_prefix("enum ") {
+        Ok(T::Enum(last_segment(n), comps))
+    } else if tf.starts_with('(') {
+        if comps.is_empty() {
+            return Ok(T::Unit);
+        }
+        Ok(T::Tuple(comps.into_iter().map(|c| c.1).collect()))
+    } else if tf.starts_with('[') {
+        let n = tf.trim_end_matches(']').rsplit(';').next().and_then(|n| n.trim().parse::<usize>().ok()).ok_or_else(|| format!("array type `{tf}` without a length"))?;
+        let et = comps.into_iter().next().ok_or_else(|| format!("array type `{tf}` without an element component"))?.1;
+        Ok(T::Array(Box::new(et), n))
+    } else {
+        Err(format!("metadata type `{tf}` not understood"))
+    }
+}
+
+// ------------------------------------------------------------------------------------------
+// The oracle
+
+struct Listed {
+    /// index into case.cfgs
+    k: usize,
+    offset: usize,
+}
+
+fn sig(kind: &str, case: &Case) -> String {
+    format!("{kind}:{:016x}", hash64(case.src.as_bytes()))
+}
+
+/// All checks of one (program, profile). `replay` is attached to violations.
+pub fn check_build(case: &Case, bytecode: &[u8], abi: &fabi::ProgramABI, profile: Profile, res: &mut ShardResult, replay: &Value) -> bool {
+    let pn = profile.name();
+    let mut changed_any = false;
+    let fail = |res: &mut ShardResult, kind: &str, desc: String| {
+        res.violation(sig(kind, case), format!("[{pn}] {desc}"), replay.clone());
+    };
+    if abi.encoding_version.0 != "1" {
+        res.inconclusive(format!("ABI encoding version is {}, the monitor implements version 1", abi.encoding_version.0));
+        return false;
+    }
+    let entries = abi.configurables.clone().unwrap_or_default();
+    // --- which configurables are listed
+    let mut listed: Vec<Listed> = vec![];
+    let mut seen = BTreeSet::new();
+    for e in &entries {
+        let Some(k) = case.cfgs.iter().position(|c| c.name == e.name) else {
+            fail(res, "abi-lists-undeclared-configurable", format!("the ABI lists configurable `{}` which the program does not declare", e.name));
+            continue;
+        };
+        if !seen.insert(k) {
+            fail(res, "abi-lists-configurable-twice", format!("the ABI lists configurable `{}` twice", e.name));
+            continue;
+        }
+        if e.indirect {
+            res.inconclusive(format!("configurable `{}` is marked indirect; the monitor only patches direct configurables", e.name));
+            continue;
+        }
+        // type, as an SDK would resolve it
+        match resolve_concrete(abi, &e.concrete_type_id.0, 12) {
+            Ok(t) => {
+                res.count("structural.abi_type_matches");
+                if t != case.cfgs[k].ty {
+                    fail(res, "abi-type-differs-from-declared-type", format!("configurable `{}` is declared as `{}` but its concreteTypeId resolves to `{}` ({t:?})", e.name, case.cfgs[k].ty.name(), t.name()));
+                    continue;
+                }
+            }
+            Err(why) => {
+                res.inconclusive(format!("cannot resolve the ABI type of configurable `{}`: {why}", e.name));
+                continue;
+            }
+        }
+        listed.push(Listed { k, offset: e.offset as usize });
+    }
+    for (k, c) in case.cfgs.iter().enumerate() {
+        let is_listed = seen.contains(&k);
+        if c.usage.observed() {
+            res.count("structural.used_is_listed");
+            if !is_listed {
+                fail(res, "used-configurable-not-listed", format!("configurable `{}` is read by the program ({}) but the ABI does not list it", c.name, c.usage.name()));
+            }
+        } else if is_listed {
+            res.count("unused_configurable_listed");
+            res.count(&format!("unused_listed.{}.{pn}", c.usage.name()));
+        } else {
+            res.count("unused_configurable_filtered");
+            res.count(&format!("unused_filtered.{}.{pn}", c.usage.name()));
+        }
+    }
+    if listed.is_empty() {
+        return false;
+    }
+    // --- structural checks on offsets
+    let mut patchable = true;
+    for l in &listed {
+        let c = &case.cfgs[l.k];
+        res.count("structural.in_bounds");
+        let size = c.ty.max_size();
+        if l.offset < 24 || l.offset.checked_add(size).map(|e| e > bytecode.len()).unwrap_or(true) {
+            fail(res, "offset-outside-bytecode", format!("configurable `{}`: offset {} + slot size {size} is not inside the bytecode of {} bytes (after the 24 byte prelude)", c.name, l.offset, bytecode.len()));
+            patchable = false;
+            continue;
+        }
+        res.count("structural.default_bytes");
+        let d = enc(&c.ty, &c.default);
+        if bytecode[l.offset..l.offset + d.len()] != d[..] {
+            fail(
+                res,
+                "bytes-at-offset-are-not-the-encoded-default",
+                format!("configurable `{}`: `{}` at offset {}: expected the encoded default {} found {}", c.name, c.ty.name(), l.offset, hex::encode(&d[..d.len().min(48)]), hex::encode(&bytecode[l.offset..l.offset + d.len().min(48)])),
+            );
+        }
+    }
+    let mut by_off: Vec<&Listed> = listed.iter().collect();
+    by_off.sort_by_key(|l| l.offset);
+    for w in by_off.windows(2) {
+        res.count("structural.disjoint");
+        let a = &case.cfgs[w[0].k];
+        if w[0].offset + a.ty.max_size() > w[1].offset {
+            fail(res, "configurable-slots-overlap", format!("slot of `{}` [{}, {}) overlaps the slot of `{}` at {}", a.name, w[0].offset, w[0].offset + a.ty.max_size(), case.cfgs[w[1].k].name, w[1].offset));
+        }
+    }
+    res.count("structural.prelude_word");
+    if bytecode.len() >= 24 {
+        let word = u64::from_be_bytes(bytecode[16..24].try_into().unwrap());
+        let min = entries.iter().min_by_key(|e| e.offset).unwrap();
+        if word != min.offset {
+            fail(res, "prelude-word-is-not-the-smallest-offset", format!("prelude bytes 16..24 hold {word}, the smallest reported configurable offset is {} (`{}`)", min.offset, min.name));
+        }
+    }
+    res.max("max_configurable_offset", by_off.last().unwrap().offset as u64);
+    res.max("max_configurable_slot_bytes", listed.iter().map(|l| case.cfgs[l.k].ty.max_size()).max().unwrap_or(0) as u64);
+    if !patchable {
+        return false;
+    }
+    // --- patch runs
+    let mut patterns: Vec<(&'static str, Vec<usize>)> = vec![("none", vec![])];
+    for (i, _) in listed.iter().enumerate() {
+        patterns.push(("single", vec![i]));
+    }
+    for i in 0..by_off.len().saturating_sub(1) {
+        let a = listed.iter().position(|l| l.k == by_off[i].k).unwrap();
+        let b = listed.iter().position(|l| l.k == by_off[i + 1].k).unwrap();
+        patterns.push(("pair", vec![a, b]));
+    }
+    if listed.len() >= 2 {
+        patterns.push(("all", (0..listed.len()).collect()));
+    }
+    let comp_types: Vec<T> = case.comps.iter().map(|c| comp_type(case, c)).collect();
+    let ret_ty = if comp_types.len() == 1 { comp_types[0].clone() } else { T::Tuple(comp_types.clone()) };
+    for (pname, which) in &patterns {
+        let mut code = bytecode.to_vec();
+        let mut vals: Vec<&V> = case.cfgs.iter().map(|c| &c.default).collect();
+        for i in which {
+            let l = &listed[*i];
+            let c = &case.cfgs[l.k];
+            let e = enc(&c.ty, &c.new);
+            code[l.offset..l.offset + e.len()].copy_from_slice(&e);
+            vals[l.k] = &c.new;
+        }
+        let patched_names = || which.iter().map(|i| case.cfgs[listed[*i].k].name.clone()).collect::<Vec<_>>().join("+");
+        let obs = run_script(&code, &[]);
+        res.count(&format!("patch_runs.{pname}"));
+        if *pname == "single" && !case.cfgs[listed[which[0]].k].usage.observed() {
+            // a listed configurable the program never reads: patching it must change nothing
+            res.count("unread_configurable_patched");
+        }
+        let data = match &obs.outcome {
+            Outcome::ReturnData(d) => d.clone(),
+            Outcome::Return(v) => v.to_be_bytes().to_vec(),
+            Outcome::VmError(e) => {
+                res.inconclusive(format!("the VM refused the script: {e}"));
+                continue;
+            }
+            other => {
+                fail(res, "patched-run-does-not-return", format!("patch pattern {pname} [{}]: the script ended with {other:?} instead of returning", patched_names()));
+                continue;
+            }
+        };
+        // scripts returning a small copy type return it in a register
+        let observed: Option<Vec<V>> = {
+            let direct = |d: &[u8]| {
+                let mut pos = 0;
+                let v = decode(&ret_ty, d, &mut pos)?;
+                if pos != d.len() {
+                    return None;
+                }
+                Some(if comp_types.len() == 1 { vec![v] } else if let V::Seq(vs) = v { vs } else { return None })
+            };
+            match &obs.outcome {
+                Outcome::Return(v) => {
+                    // word returned in a register: low bytes hold the value
+                    let n = ret_ty.max_size().min(8);
+                    direct(&v.to_be_bytes()[8 - n..])
+                }
+                _ => direct(&data),
+            }
+        };
+        let Some(observed) = observed else {
+            fail(res, "return-data-is-not-an-encoding-of-the-return-type", format!("patch pattern {pname} [{}]: return data {} does not decode as {}", patched_names(), hex::encode(&data[..data.len().min(120)]), ret_ty.name()));
+            continue;
+        };
+        for (ci, comp) in case.comps.iter().enumerate() {
+            let expected = comp_val(case, comp, &vals);
+            res.count("components_compared");
+            res.count(&format!("component.{}", comp.kind()));
+            let k = comp.cfg();
+            let is_patched = which.iter().any(|i| listed[*i].k == k);
+            if is_patched && expected != comp_val(case, comp, &case.cfgs.iter().map(|c| &c.default).collect::<Vec<_>>()) {
+                res.count("components_changed_by_patch");
+                if *pname == "single" {
+                    changed_any = true;
+                }
+            }
+            if observed[ci] != expected {
+                let c = &case.cfgs[k];
+                let ct = &comp_types[ci];
+                let kind = if is_patched { "patched-value-not-observed" } else { "unpatched-configurable-changed" };
+                fail(
+                    res,
+                    kind,
+                    format!(
+                        "patch pattern {pname} [{}]: component {ci} ({} of `{}`: {}, {}) observed {} expected {}",
+                        patched_names(),
+                        comp.kind(),
+                        c.name,
+                        c.ty.name(),
+                        c.usage.name(),
+                        short_val(ct, &observed[ci]),
+                        short_val(ct, &expected)
+                    ),
+                );
+                break;
+            }
+        }
+        // logged configurables
+        if obs.logs.len() == case.logged.len() {
+            for (j, k) in case.logged.iter().enumerate() {
+                res.count("components_compared");
+                res.count("component.logged");
+                let c = &case.cfgs[*k];
+                let e = enc(&c.ty, vals[*k]);
+                if obs.logs[j].1 != e {
+                    let is_patched = which.iter().any(|i| listed[*i].k == *k);
+                    let kind = if is_patched { "patched-value-not-observed" } else { "unpatched-configurable-changed" };
+                    fail(res, kind, format!("patch pattern {pname} [{}]: log {j} of `{}` holds {} expected {}", patched_names(), c.name, hex::encode(&obs.logs[j].1[..obs.logs[j].1.len().min(60)]), hex::encode(&e[..e.len().min(60)])));
+                    break;
+                }
+            }
+        } else {
+            fail(res, "number-of-logs-differs", format!("patch pattern {pname} [{}]: {} logs observed, the program logs {} values", patched_names(), obs.logs.len(), case.logged.len()));
+        }
+    }
+    changed_any
+}
+
+fn abi_of(pkg: &forc_pkg::CompiledPackage) -> Option<fabi::ProgramABI> {
+    match &pkg.program_abi {
+        sway_core::asm_generation::ProgramABI::Fuel(a) => Some(a.clone()),
+        _ => None,
+    }
+}
+
+pub fn run_case(am: &mut Amortised, case: &Case, res: &mut ShardResult, replay: &Value) {
+    res.evaluations += 1;
+    let mut ok_profiles = 0;
+    let mut changed = false;
+    let mut max_listed = 0;
+    for profile in Profile::BOTH {
+        let c = match catch(AssertUnwindSafe(|| am.compile("c13case", &case.src, profile))) {
+            Err((loc, msg)) => {
+                res.count("compiler_panics");
+                res.inconclusive(format!("compiler panicked at {loc}: {}", msg.chars().take(100).collect::<String>()));
+                let keep = work_dir("rejected").join(format!("C13_panic_{}.sw", bucket(&msg).replace([' ', '#'], "_")));
+                if !keep.exists() {
+                    let _ = std::fs::write(&keep, format!("// {loc}: {msg}\n{}", case.src));
+                }
+                let _ = std::fs::remove_dir_all(am.last_dir());
+                continue;
+            }
+            Ok(Err(_)) => {
+                res.count("rejected");
+                let dir = am.last_dir();
+                let msg = first_error_text(am, &dir, profile);
+                res.count(&format!("rejected.{}", bucket(&msg)));
+                res.inconclusive(format!("generated program rejected ({}): {}", profile.name(), msg.chars().take(160).collect::<String>()));
+                let keep = work_dir("rejected").join(format!("C13_{}.sw", bucket(&msg).replace([' ', '#'], "_")));
+                if !keep.exists() {
+                    let _ = std::fs::write(&keep, format!("// {msg}\n{}", case.src));
+                }
+                let _ = std::fs::remove_dir_all(&dir);
+                continue;
+            }
+            Ok(Ok(c)) => c,
+        };
+        let Some(abi) = abi_of(&c.pkg) else {
+            res.inconclusive("no Fuel ABI produced");
+            am.remove(&c);
+            continue;
+        };
+        res.count(&format!("programs_checked.{}", profile.name()));
+        ok_profiles += 1;
+        max_listed = max_listed.max(abi.configurables.as_ref().map(|c| c.len()).unwrap_or(0));
+        // The amortised engine reuses one `Engines` for many packages, which forc never does: a
+        // failed check is only reported when a fresh compiler instance (plain forc build of the
+        // same directory) shows it too.
+        let mut first = ShardResult::default();
+        let ch = check_build(case, &c.pkg.bytecode.bytes, &abi, profile, &mut first, replay);
+        if first.violations.is_empty() {
+            changed |= ch;
+            res.merge(first);
+        } else {
+            res.count("failed_checks_rechecked_with_fresh_compiler");
+            match catch(AssertUnwindSafe(|| plain_build(&c.dir, profile))) {
+                Ok(Ok(built)) => {
+                    let abi2 = match &built.program_abi {
+                        sway_core::asm_generation::ProgramABI::Fuel(a) => Some(a.clone()),
+                        _ => None,
+                    };
+                    match abi2 {
+                        Some(abi2) => {
+                            let mut second = ShardResult::default();
+                            let ch2 = check_build(case, &built.bytecode.bytes, &abi2, profile, &mut second, replay);
+                            if second.violations.is_empty() {
+                                res.count("not_reproduced_with_fresh_compiler");
+                                res.inconclusive(format!(
+                                    "a check failed on the build of the amortised engine ({}) but not on a plain forc build of the same package: artefact of reusing one compiler instance, not reported",
+                                    first.violations[0].description.chars().take(160).collect::<String>()
+                                ));
+                                let keep = work_dir("rejected").join(format!("C13_amortised_only_{:016x}.sw", hash64(case.src.as_bytes())));
+                                let _ = std::fs::write(&keep, format!("// {}\n{}", first.violations[0].description, case.src));
+                            }
+                            changed |= ch2;
+                            res.merge(second);
+                        }
+                        None => res.inconclusive("no Fuel ABI produced by the plain build"),
+                    }
+                }
+                _ => {
+                    res.count("fresh_compiler_recheck_failed");
+                    res.inconclusive("a check failed on the build of the amortised engine and the plain forc build of the same package failed: not reported");
+                }
+            }
+        }
+        am.remove(&c);
+    }
+    if ok_profiles > 0 {
+        for c in &case.cfgs {
+            res.count(&format!("cfg_ctor.{}", c.ty.ctor()));
+            res.count(&format!("cfg_usage.{}", c.usage.name()));
+            let mut nested = vec![];
+            c.ty.nested_ctors(&mut nested);
+            for n in nested.iter().skip(1) {
+                res.count(&format!("cfg_nested_ctor.{n}"));
+            }
+            res.max("max_type_depth", c.ty.depth() as u64);
+        }
+        res.count(&format!("configurables_per_program.{:02}", case.cfgs.len()));
+        res.add("configurables_total", case.cfgs.len() as u64);
+    }
+    if ok_profiles == 2 && max_listed >= 2 && changed {
+        res.note_nontrivial(hash64(case.src.as_bytes()));
+    }
+    if ok_profiles == 2 && res.samples.len() < 2 && case.cfgs.len() >= 3 && case.src.len() < 2500 {
+        res.sample(json!({"source": case.src, "replacements": case.cfgs.iter().map(|c| json!({"name": c.name, "new": short_val(&c.ty, &c.new)})).collect::<Vec<_>>()}));
+    }
+}
+
+fn case_at(seed: u64, shard: u64, index: u64) -> Case {
+    let mut rng = rng_for(seed ^ 0x0c13, shard, index);
+    gen_case(&mut rng)
+}
+
+fn shard(ctx: &ShardCtx) -> ShardResult {
+    let mut res = ShardResult::default();
+    let mut am = Amortised::new(&ctx.work());
+    if let Err(e) = am.warm() {
+        res.harness_fault = Some(format!("std does not compile: {e}"));
+        return res;
+    }
+    let mut i = ctx.first_index;
+    // the time budget bounds the exploration, it is not a verdict: on an overloaded machine the
+    // compilation of std alone can exceed it, so a minimum number of programs is always run
+    // and std (compiled twice per worker) must not eat the whole budget: at least 20 s of exploration
+    let warm_end = std::time::Instant::now();
+    while ctx.time_left() || warm_end.elapsed().as_secs() < 20 || (ctx.first_index == 0 && i < 6) {
+        let case = case_at(ctx.seed, ctx.shard, i);
+        journal_current(ctx, &case.src);
+        ctx.begin_case(i, &case.src, &res);
+        let replay = json!({"seed": ctx.seed, "shard": ctx.shard, "index": i, "source": case.src});
+        run_case(&mut am, &case, &mut res, &replay);
+        ctx.end_case();
+        i += 1;
+    }
+    res
+}
+
+fn replay(case: &Value) -> ShardResult {
+    let mut res = ShardResult::default();
+    let (Some(seed), Some(shard), Some(index)) = (case.get("seed").and_then(|v| v.as_u64()), case.get("shard").and_then(|v| v.as_u64()), case.get("index").and_then(|v| v.as_u64())) else {
+        res.harness_fault = Some("replay file lacks seed/shard/index".into());
+        return res;
+    };
+    let c = case_at(seed, shard, index);
+    if case.get("source").and_then(|v| v.as_str()) != Some(c.src.as_str()) {
+        res.harness_fault = Some("the generator no longer reproduces the recorded program (see `source` in the replay file)".into());
+        return res;
+    }
+    let work = work_dir("C13").join("replay");
+    clean_dir(&work);
+    let mut am = Amortised::new(&work);
+    run_case(&mut am, &c, &mut res, case);
+    res
+}
+
+// ------------------------------------------------------------------------------------------
+// Oracle self test: `swverif c13-selftest` feeds the oracle real builds whose ABI / bytecode were
+// tampered with the way a broken compiler would produce them and expects every one to be flagged.
+
+fn subcommand(args: &[String]) -> Option<i32> {
+    match args.first().map(|s| s.as_str()) {
+        Some("c13-selftest") => Some(selftest()),
+        Some("c13-abi") => {
+            // print the JSON ABI (and the prelude word) of a script file, release profile
+            let src = std::fs::read_to_string(&args[1]).expect("read source");
+            let work = work_dir("C13_abi");
+            clean_dir(&work);
+            let mut am = Amortised::new(&work);
+            match am.compile("c13case", &src, Profile::Release) {
+                Ok(c) => {
+                    let abi = abi_of(&c.pkg).expect("fuel abi");
+                    println!("{}", serde_json::to_string_pretty(&abi).unwrap());
+                    let b = &c.pkg.bytecode.bytes;
+                    println!("bytecode {} bytes, prelude word {}", b.len(), u64::from_be_bytes(b[16..24].try_into().unwrap()));
+                    Some(0)
+                }
+                Err(e) => {
+                    println!("rejected: {e}");
+                    Some(1)
+                }
+            }
+        }
+        Some("c13-show") => {
+            let seed = args.get(1).and_then(|s| s.parse().ok()).unwrap_or(1);
+            let shard = args.get(2).and_then(|s| s.parse().ok()).unwrap_or(0);
+            let index = args.get(3).and_then(|s| s.parse().ok()).unwrap_or(0);
+            println!("{}", case_at(seed, shard, index).src);
+            Some(0)
+        }
+        _ => None,
+    }
+}
+
+fn selftest() -> i32 {
+    let work = work_dir("C13_selftest");
+    clean_dir(&work);
+    let mut am = Amortised::new(&work);
+    let mut failures = 0;
+    let mut tried: BTreeMap<&'static str, (u32, u32)> = BTreeMap::new();
+    let mut programs = 0;
+    for index in 0..400u64 {
+        let case = case_at(4242, 0, index);
+        let observed: Vec<usize> = (0..case.cfgs.len()).filter(|k| case.cfgs[*k].usage.observed()).collect();
+        if observed.len() < 2 {
+            continue;
+        }
+        let Ok(Ok(c)) = catch(AssertUnwindSafe(|| am.compile("c13case", &case.src, Profile::Release))) else { continue };
+        let Some(abi) = abi_of(&c.pkg) else { continue };
+        let code = c.pkg.bytecode.bytes.clone();
+        am.remove(&c);
+        let mut base = ShardResult::default();
+        check_build(&case, &code, &abi, Profile::Release, &mut base, &json!({}));
+        if !base.violations.is_empty() {
+            println!("selftest: unmodified build is flagged: {}", base.violations[0].description);
+            failures += 1;
+            continue;
+        }
+        programs += 1;
+        let cfgs = abi.configurables.clone().unwrap_or_default();
+        let mut mutants: Vec<(&'static str, fabi::ProgramABI, Vec<u8>)> = vec![];
+        // 1. every offset shifted by one word
+        let mut a = abi.clone();
+        a.configurables.as_mut().unwrap().iter_mut().for_each(|c| c.offset += 8);
+        mutants.push(("offsets_shifted_by_8", a, code.clone()));
+        // 2. offsets of two configurables exchanged (ABI order != data section order)
+        if cfgs.len() >= 2 {
+            let mut a = abi.clone();
+            let v = a.configurables.as_mut().unwrap();
+            let (o0, o1) = (v[0].offset, v[1].offset);
+            v[0].offset = o1;
+            v[1].offset = o0;
+            mutants.push(("two_offsets_exchanged", a, code.clone()));
+        }
+        // 3. a configurable without a data section entry left in the list (offset never fixed up)
+        {
+            let mut a = abi.clone();
+            let v = a.configurables.as_mut().unwrap();
+            let k = v.iter().position(|e| case.cfgs.iter().any(|c| c.name == e.name && !c.usage.observed())).unwrap_or(v.len() - 1);
+            v[k].offset = 0;
+            mutants.push(("dead_configurable_listed_without_offset", a, code.clone()));
+        }
+        // 4. a used configurable missing from the ABI
+        {
+            let mut a = abi.clone();
+            let name = &case.cfgs[observed[0]].name;
+            a.configurables.as_mut().unwrap().retain(|c| &c.name != name);
+            mutants.push(("used_configurable_missing", a, code.clone()));
+        }
+        // 5. prelude word not updated
+        {
+            let mut b = code.clone();
+            b[16..24].copy_from_slice(&0u64.to_be_bytes());
+            mutants.push(("prelude_word_zero", abi.clone(), b));
+        }
+        // 6. the program ignores the slot of one configurable (its default was folded into the code):
+        //    simulated by giving the ABI entry the offset of a scratch copy appended to the bytecode
+        {
+            let k = observed[0];
+            let c = &case.cfgs[k];
+            if c.new != c.default {
+                let mut a = abi.clone();
+                let mut b = code.clone();
+                let e = a.configurables.as_mut().unwrap().iter_mut().find(|e| e.name == c.name).unwrap();
+                let old = e.offset as usize;
+                let size = c.ty.max_size();
+                // keep the prelude check out of the way: only when it is not the smallest offset
+                let min = cfgs.iter().map(|e| e.offset).min().unwrap();
+                if old as u64 != min {
+                    e.offset = b.len() as u64;
+                    let copy = b[old..old + size].to_vec();
+                    b.extend(copy);
+                    mutants.push(("slot_not_read_by_program", a, b));
+                }
+            }
+        }
+        // 7. wrong type id on an entry
+        if cfgs.len() >= 2 {
+            let t0 = case.cfgs.iter().find(|c| c.name == cfgs[0].name).map(|c| c.ty.clone());
+            if let Some(other) = cfgs.iter().find(|e| case.cfgs.iter().find(|c| c.name == e.name).map(|c| Some(&c.ty) != t0.as_ref()).unwrap_or(false)) {
+                let mut a = abi.clone();
+                a.configurables.as_mut().unwrap()[0].concrete_type_id = other.concrete_type_id.clone();
+                mutants.push(("wrong_concrete_type_id", a, code.clone()));
+            }
+        }
+        for (name, a, b) in mutants {
+            let mut r = ShardResult::default();
+            check_build(&case, &b, &a, Profile::Release, &mut r, &json!({}));
+            let e = tried.entry(name).or_insert((0, 0));
+            e.0 += 1;
+            if r.violations.is_empty() {
+                println!("selftest: mutant {name} of program {index} was NOT flagged");
+                failures += 1;
+            } else {
+                e.1 += 1;
+            }
+        }
+        if programs >= 40 {
+            break;
+        }
+    }
+    for (k, (n, hit)) in &tried {
+        println!("selftest: {k}: flagged {hit} of {n}");
+    }
+    println!("selftest: {programs} programs, {failures} failures");
+    if failures == 0 && programs >= 10 && tried.values().all(|(n, _)| *n > 0) && tried.len() == 7 {
+        0
+    } else {
+        1
+    }
+}
